@@ -55,6 +55,8 @@ def shape_spec(rng, version, tier, name='shape', want_skin=None, allow_kinds=Tru
     s = {'name': name, 'nv': nv, 'nt': nt, 'salt': rng.below(1 << 30), 'uv': rng.chance(0.85), 'normals': rng.chance(0.8)}
     if rng.chance(0.3):
         s['colors'] = True
+        # conversions drop the colour channel only when every colour is opaque white: the boundary cases are generated on purpose
+        s['color_mode'] = rng.weighted([('random', 6), ('white', 1), ('white_alpha', 2), ('white_but_one', 1)])
     if rng.chance(0.3):
         s['tangents'] = True
     if rng.chance(0.2):
